@@ -74,7 +74,17 @@ var c07Sources = []filesCase{
 	{Root: "s4.sysl", Files: map[string]string{"s4.sysl": "import d1\nimport d2\nM:\n    Ep:\n        D <- E\n", "d1.sysl": "import d2\nD:\n    E:\n        ...\n", "d2.sysl": "D2:\n    !type T:\n        f <: int\n"}},
 	{Root: "s5.sysl", Files: map[string]string{"s5.sysl": "MA:\n    -|> MB\n    Own:\n        MB <- Sh\nMB:\n    -|> MC\n    Sh:\n        ...\nMC:\n    Deep:\n        ...\n    !type T%2EU:\n        f <: T\n    !type T%2EV:\n        g <: int\n    !type T:\n        h <: int\nMD:\n    .. * <- *:\n        Own2 [~c1]\n        MB <- Sh [k=\"v\"]\n    Own2:\n        MB <- Sh\n"}},
 	{Root: "s6.sysl", Files: map[string]string{"s6.sysl": "P [a=\"1\", b=\"2\", ~t1, ~t2]:\n    @c = \"3\"\n    @d = [\"x\", \"y\"]\n    E1 [x=\"1\", y=\"2\"]:\n        ...\n    E2:\n        ...\n    E3:\n        ...\n    !enum En:\n        A: 1\n        B: 2\n        C: 3\nQ:\n    <-> Ev:\n        ...\nSub:\n    Q -> Ev:\n        ...\n"}},
+	// sources beyond c07Core take part in map-order cases, in all sequences of two and in a few concurrent pairs:
+	// s7 two views with anonymous (untyped nested) transforms; s8/s9 rejected inputs that leave brackets
+	// open / closed once too often; s10 a victim whose reading depends on clean lexer state
+	{Root: "s7.sysl", Files: map[string]string{"s7.sysl": "A:\n    !type T:\n        f <: int\n    !view v1(p <: int) -> T:\n        p -> <T> (:\n            b = p -> (:\n                c = p -> <T> (:\n                    f = 1\n                )\n            )\n        )\n    !view v2(p <: int) -> T:\n        p -> <T> (:\n            b = p -> (:\n                d = p -> <T> (:\n                    f = 2\n                )\n            )\n        )\n    !view v3(p <: int) -> T:\n        p -> <T> (:\n            let l = p + 1\n            f = l\n        )\n"}},
+	{Root: "s8.sysl", Files: map[string]string{"s8.sysl": "Shop [~db:\n    Ep:\n        ...\n"}},
+	{Root: "s9.sysl", Files: map[string]string{"s9.sysl": "Shop ]]:\n    Ep [a=[\"x\"]]]:\n        ...\n"}},
+	{Root: "s10.sysl", Files: map[string]string{"s10.sysl": "Some App:\n    !type T:\n        id <: int\n        s <: string\n        d <: datetime\n    Ep (p <: int):\n        | text line [x]\n        return ok <: string\n"}},
 }
+
+// c07Core: the sources that take part in every combination (s0..s6 by file name)
+const c07Core = 7
 
 type c07Case struct {
 	Srcs  []int `json:"srcs"`
@@ -89,14 +99,20 @@ func (c07) Bounds(tier string) map[string]interface{} {
 }
 
 func (c07) Cases(tier string, emit func(string, interface{})) {
-	n := len(c07Sources)
-	for i := 0; i < n; i++ {
+	n := c07Core
+	for i := 0; i < len(c07Sources); i++ {
+		if i == 8 || i == 9 {
+			continue // rejected inputs have no model to serialise
+		}
 		emit("mapord", c07Case{Srcs: []int{i}})
 	}
 	// sequences
-	for i := 0; i < n; i++ {
-		for j := 0; j < n; j++ {
+	for i := 0; i < len(c07Sources); i++ {
+		for j := 0; j < len(c07Sources); j++ {
 			emit("seq", c07Case{Srcs: []int{i, j}})
+			// (two compilations on ONE Parser object are not generated: the Parser keeps per-compilation
+			// state - LetTypes, Messages - and every caller in the repository makes one per compilation;
+			// demanding re-usability is more than the property states)
 		}
 	}
 	for i := 0; i < n; i++ {
@@ -133,6 +149,10 @@ func (c07) Cases(tier string, emit func(string, interface{})) {
 			}
 		}
 	}
+	// a rejected input next to a victim, and the anonymous-type source next to itself
+	for _, p := range [][]int{{8, 10}, {9, 10}, {8, 1}, {7, 7}, {7, 2}} {
+		emit("pair", c07Case{Srcs: p, Bound: 1})
+	}
 	emit("race", c07Case{})
 	// cold start, five fresh processes (a first-use race needs a process that has compiled nothing yet)
 	for i := 1; i <= 5; i++ {
@@ -151,7 +171,9 @@ func serialise(m *sysl.Module) (string, error) {
 	return t.String() + "\n----\n" + j.String(), nil
 }
 
-func compileSer(fc filesCase) string {
+func compileSer(fc filesCase) string { return compileSerWith(parse.NewParser(), fc) }
+
+func compileSerWith(p *parse.Parser, fc filesCase) string {
 	fs := afero.NewMemMapFs()
 	names := make([]string, 0, len(fc.Files))
 	for n := range fc.Files {
@@ -161,7 +183,7 @@ func compileSer(fc filesCase) string {
 	for _, n := range names {
 		_ = afero.WriteFile(fs, n, []byte(fc.Files[n]), 0o644)
 	}
-	m, err := parse.NewParser().ParseFromFs(fc.Root, fs)
+	m, err := p.ParseFromFs(fc.Root, fs)
 	if err != nil {
 		return "ERR: " + err.Error()
 	}
@@ -179,7 +201,9 @@ func (c07) Run(c core.Case) core.Outcome {
 	case "mapord":
 		return c07MapOrd(cs)
 	case "seq":
-		return c07Seq(cs)
+		return c07Seq(cs, false)
+	case "reuse":
+		return c07Seq(cs, true)
 	case "race":
 		if len(cs.Srcs) == 1 && cs.Srcs[0] == -1 {
 			return c07Race("cold")
@@ -223,9 +247,13 @@ func c07MapOrd(cs c07Case) core.Outcome {
 	return o
 }
 
-func c07Seq(cs c07Case) core.Outcome {
+func c07Seq(cs c07Case, reuse bool) core.Outcome {
 	var o core.Outcome
 	o.Class = "seq"
+	shared := parse.NewParser()
+	if reuse {
+		o.Class = "reuse"
+	}
 	solo := map[int]string{}
 	for _, i := range cs.Srcs {
 		if _, ok := solo[i]; !ok {
@@ -233,11 +261,20 @@ func c07Seq(cs c07Case) core.Outcome {
 		}
 	}
 	for pos, i := range cs.Srcs {
-		got := compileSer(c07Sources[i])
+		got := ""
+		if reuse {
+			got = compileSerWith(shared, c07Sources[i])
+		} else {
+			got = compileSer(c07Sources[i])
+		}
 		o.Traces++
 		if got != solo[i] {
 			o.Violation = fmt.Sprintf("sequence %v: compilation #%d (%s) differs from its solo result: %s", cs.Srcs, pos, c07Sources[i].Root, firstDiff(solo[i], got))
 			o.Sig = "seq-leak|" + c07Sources[i].Root
+			if reuse {
+				o.Violation = "one Parser object, " + o.Violation
+				o.Sig = "parser-reuse-leak|" + c07Sources[i].Root
+			}
 			return o
 		}
 	}
@@ -247,7 +284,7 @@ func c07Seq(cs c07Case) core.Outcome {
 		return o
 	}
 	if len(cs.Srcs) >= 2 {
-		o.NonTrivial = fmt.Sprint("seq", cs.Srcs)
+		o.NonTrivial = fmt.Sprint(o.Class, cs.Srcs)
 	}
 	return o
 }
